@@ -250,7 +250,7 @@ func runStack(c *ctx, which string) error {
 		maxPre = 2
 		nrand = 60
 	}
-	budget := 6000
+	budget := 12000
 	if c.thorough() {
 		budget = 150000
 	}
@@ -279,9 +279,14 @@ func runStack(c *ctx, which string) error {
 				total = n
 			}
 		}
-		// one pre-emption at every step; two pre-emptions in the thorough tier
+		// one pre-emption at every step (quick: at most ~70 points per starting handle, spread evenly);
+		// two pre-emptions in the thorough tier
+		stride := 1
+		if !c.thorough() && total > 70 {
+			stride = (total + 69) / 70
+		}
 		for f := 0; f < nh; f++ {
-			for a := 1; a < total+4; a++ {
+			for a := 1 + (idx % stride); a < total+4; a += stride {
 				emit(sc, schedule{first: f, switches: map[int]bool{a: true}})
 				if maxPre >= 2 {
 					for b := a + 1; b < total+4; b += 1 + (total / 12) {
@@ -291,7 +296,7 @@ func runStack(c *ctx, which string) error {
 			}
 		}
 		// crash points: handle 0 crashes before each of its steps, the others continue
-		for k := 0; k < total+2; k += 1 {
+		for k := 0; k < total+2; k += stride {
 			emit(sc, schedule{first: 0, crashAt: map[int]int{0: k}})
 			if nh > 1 && (c.thorough() || k%2 == 0) {
 				emit(sc, schedule{first: 1, switches: map[int]bool{2 + k%5: true}, crashAt: map[int]int{1: k}})
